@@ -319,3 +319,40 @@ def resource_invariants(sn: Snapshot) -> list[str]:
         if name in sn.avail and u > sn.avail[name]:
             bad.append(f"C12 RUNNING steps hold {u} of {sn.avail[name]} units of {name}")
     return bad
+
+
+def cache_invariants(sn: Snapshot) -> list[str]:
+    """CacheInv of DESIGN 9/C10: every stale cached scheduling column is covered by a flag that
+    makes the next metadata refresh recompute it (attached steps only)."""
+    bad = []
+    needs = implied_need_spec(sn)
+
+    def downstream_flagged(i, seen):
+        if i in seen:
+            return False
+        seen.add(i)
+        if sn.steps[i]["_check_after"]:
+            return True
+        for _, f in sn.sinks(i):
+            for _, c in sn.sinks(f):
+                if sn.nodes[c][0] == "step" and not sn.nodes[c][3] and c in sn.steps and downstream_flagged(c, seen):
+                    return True
+        return False
+
+    for i, n in sn.nodes.items():
+        if n[0] != "step" or n[3] or i not in sn.steps:
+            continue
+        s = sn.steps[i]
+        if not s["_check_ready"] and bool(s["_ready"]) != ready_spec(sn, i):
+            bad.append(f"CacheInv _ready={s['_ready']} of '{n[1]}' differs from its definition and _check_ready is clear")
+        stale_safe = (bool(s["_safe"]) != safe_spec(sn, i, False)
+                      or bool(s["_safe_ignoring_hold"]) != safe_spec(sn, i, True))
+        if stale_safe:
+            chain = [i] + creator_chain_steps(sn, i)
+            if not any(sn.steps[a]["_check_safe"] for a in chain if a in sn.steps):
+                bad.append(f"CacheInv _safe/_safe_ignoring_hold of '{n[1]}' differ from their definitions and no "
+                           f"step of its creator chain is flagged _check_safe")
+        if s["_implied_need"] != needs[i] and not downstream_flagged(i, set()):
+            bad.append(f"CacheInv _implied_need={s['_implied_need']} of '{n[1]}' differs from its definition "
+                       f"{needs[i]} and no step downstream is flagged _check_after")
+    return bad
